@@ -9,6 +9,7 @@ TMP="$(mktemp -d /tmp/verif.XXXXXX)"
 trap 'rm -rf "$TMP"' EXIT
 EXTRA=()
 if [ "$ID" = "C14" ]; then EXTRA=(-stmt leveldb/memdb); fi
+if [ "$ID" = "C17" ]; then EXTRA=(-stmt leveldb/cache); fi
 if ! "$ROOT/scripts/build.sh" "$TMP" "${EXTRA[@]}" >"$TMP/build.log" 2>&1; then
   echo "BUILD-ERROR (machinery or source does not compile after instrumentation):"
   tail -40 "$TMP/build.log"
